@@ -50,6 +50,23 @@ HWS_RARE = ["000000000000", "ffffffffffff"]
 Q_RARE = {"nos": NOS_RARE + [2], "names": NAMES_RARE + ["0"], "hws": HWS_RARE + ["0000000000a1"]}
 XIDS_RARE = [0, 1, 255, 256, 257, 70000, 70001, 0x7fffffff, 0x80000000, 0xffffffff]
 
+# what a listener does with an event: every spelling revent.raiseEvent accepts -> what its CALLER (the handler that raised the
+# event on the nexus and is about to raise it on the connection) makes of it.  "halt*": e.halt is True afterwards; "remove*": the
+# listener unsubscribes; "cont": it returns, or raises (raiseEventNoErrors then answers None).
+BEH = {"none": "cont", "continue": "cont", "one": "cont", "raise": "cont", "raise_base": "cont", "raise_revent": "cont",
+       "halt": "halt", "true": "halt", "sethalt": "halt", "empty": "halt", "tuple_halt": "halt",
+       "haltremove": "haltremove", "once_halt": "haltremove", "tuple_haltremove": "haltremove",
+       "remove": "remove", "false": "remove", "once": "remove", "tuple_remove": "remove"}
+BEH_ONCE = ("once", "once_halt")
+HALTING = ("halt", "haltremove")
+HS_EVENTS = ("ConnectionUp", "FeaturesReceived", "PortStatus")
+MISC_EVENTS = ("RawStatsReply",) + HS_EVENTS
+BEH_EVENTS = ("RawStatsReply",) + tuple(sorted(STATS_EVENTS)) + HS_EVENTS
+
+
+class ListenerQuit(BaseException):
+    """what a listener with the outcome "raise_base" raises (not an Exception)"""
+
 
 class Sock:
     def __init__(self): self.chunks, self.sent = [], b""
@@ -100,7 +117,7 @@ class C17(Check):
                 "Pox.C17.legacy_stale_part_defect", "Pox.C17.legacy_unknown_type_raises",
                 "Pox.C17.views_consistent", "Pox.C17.copy_same_view", "Pox.C17.status_unknown_reason", "Pox.C17.features_restarts",
                 "Pox.C17.handshake_defers_in_order", "Pox.C17.view_at_connection_up", "Pox.C17.stats_two_requests", "Pox.C17.stats_same_request_again",
-                "Pox.C17.raw_event_exactly_for_stats"]
+                "Pox.C17.raw_event_exactly_for_stats", "Pox.C17.listeners_frame", "Pox.C17.stats_any_listeners", "Pox.C17.guarded_assembly_defect"]
     anchors = [("pox/openflow/of_01.py", 68, 111), ("pox/openflow/of_01.py", 176, 190), ("pox/openflow/of_01.py", 245, 254),
                ("pox/openflow/of_01.py", 337, 344), ("pox/openflow/of_01.py", 369, 372), ("pox/openflow/of_01.py", 390, 395),
                ("pox/openflow/of_01.py", 397, 404), ("pox/openflow/of_01.py", 601, 715), ("pox/openflow/of_01.py", 760, 760),
@@ -116,6 +133,7 @@ class C17(Check):
                   "interleaved in any way, each request's event fires exactly once, at its final part, with exactly its own parts' entries in order (a request is the pair (xid, type): stats_two_requests); stats_never_raises; "
                   "other_messages_frame (true by construction of the model's deliver — the .other branch is the identity, port and stats branches write disjoint fields; that the real handlers of the other message kinds leave both "
                   "pictures alone is established by the differential run with 9 other message kinds, not by this theorem); raw_event_exactly_for_stats (over runConn: one RawStatsReply per statistics message, in order). "
+                  "listeners_frame / stats_any_listeners (over runConnL: what the nexus-level listeners answer is an input of every handler — for ANY answers at any messages the state and the nexus-level events are those of the listener-free run, the connection-level events are those minus exactly the halted ones; guarded_assembly_defect: with the assembler call under the not-halted guard the statement is false). "
                   "view_at_connection_up: at ConnectionUp/FeaturesReceived the view is exactly the features reply, then one replayed status at a time. Phase 2: views_consistent (len/iter/membership/get/has_key/values/items agree in ANY state), copy_same_view, status_unknown_reason, features_restarts, handshake_defers_in_order. "
                   "The models mirror the code WITH the repairs D17 and D18; legacy_*_defect theorems are decide-witnesses that the unrepaired lookups / assembly violate the statements. "
                   "Each run re-checks the models against the real code (bytes through Connection.read, default handler table, real decoders) and evaluates an independent oracle on the real code's observables.")
@@ -129,15 +147,16 @@ class C17(Check):
                     "a Python set is modelled as a list read only through first-match/filter/membership; iteration order is an oracle input for name/address lookups"]
     assumptions = ["'notifications applied in order' is read relative to DISPATCH: port statuses received during the handshake are dispatched (applied + PortStatus raised) after ConnectionUp/FeaturesReceived "
                    "(design of _finish_connecting, comment at of_01.py:341-343), so a ConnectionUp handler sees the bare features reply (theorem view_at_connection_up); at every event the view equals the notifications dispatched so far",
-                   "'fires exactly once' = one Out per message in the model; the code raises each event on the nexus and then, unless a nexus listener halts it, on the connection with the same arguments: the harness "
-                   "installs no halting listener and requires the two observed sequences to be equal (oracle key stats:nexus-differs)",
+                   "'fires exactly once' = exactly once for the FIRST listener of the first level that has one (the harness's recorder, registered before and with higher priority than the case's own listeners): the code raises each event on the nexus and then, "
+                   "unless a nexus-level listener halts it, on the connection with the same arguments.  Whatever the case's listeners answer (halt, unsubscribe, raise: a case parameter), the first listener must see exactly what the property states; the connection-level sequence must equal "
+                   "the nexus-level one except that an event a nexus-level listener halted MAY be missing there (by design of the handlers: it is, and the model says so — Model/StatsAgg.lean deliverL); without such a listener the two must be equal (oracle keys stats:nexus-differs, stats:raw:con-differs, ports:event:con-differs, handshake:con-level:differs)",
                    "a features reply lists each port number at most once (identical duplicates are harmless); with two different descriptions under one number the code's answer depends on set order and neither model nor oracle judge it",
                    "concurrent statistics requests have distinct (xid, type); a request's parts all carry its xid and type",
                    "only the four list-valued statistics types are sent with REPLY_MORE (others: the code discards them by design; compared with the model, not judged by the oracle)",
                    "entry decoding/encoding is exact for the generated entries (C01); entries that do not re-pack to their own bytes are not generated"]
     rule = ("case = one connection history on bytes: features reply (0-4 ports), optional early port statuses, then up to 14 messages among port status (3 reasons x 4 numbers x 3 names x 2 addresses x 2 configs), "
             "second features reply, statistics parts (6 types, bodies 0..12 entries cut into 1..6 parts, up to 3 requests interleaved, same type/other xid and same xid/other type), 9 other message kinds, port statuses before the features reply; modes (HARDENING.md): rare values (port 0 / 0xff00 / 0xfffe / 0xffff, empty / numeric / 16-byte / non-ASCII names, zero / broadcast address, xids 0, 255..257, 2^31, 2^32-1), "
-            "several messages per read, a second connection alive at the same time with the same numbers / names / request ids, listeners that raise; sweeps of the reason byte (0..255), the stats type selector and the flag bits; corpus = D17/D18 witnesses, all port-status "
+            "several messages per read, a second connection alive at the same time with the same numbers / names / request ids, listeners that raise; LISTENER OUTCOMES as a case parameter (`beh`: listeners of RawStatsReply / the six aggregated events / PortStatus / FeaturesReceived / ConnectionUp, on the nexus or on the connection, answering with each of the 18 spellings revent accepts — halt / True / () / (True,) / event.halt / EventHaltAndRemove / (1, True) / once / EventRemove / (False, True) / False / EventContinue / 1 / None / Exception / BaseException / ReventError — always or while chosen messages or the handshake are handled; `mute`: event kinds with NO listener on the nexus): one fixed 10-message history x every spelling x both levels x 6 event groups + combinations, ~10% of the generated histories likewise; sweeps of the reason byte (0..255), the stats type selector and the flag bits; corpus = D17/D18 witnesses, all port-status "
             "sequences to length 3 (quick) / 4 (thorough) over a 2x2x2 scope, all partitions of short bodies; non-trivial = a port message changed a view or a reply had >=2 parts or requests overlapped")
     coverage_cases = 10 ** 6          # every case runs under the line tracer
     _import_counted = ()
@@ -207,15 +226,43 @@ class C17(Check):
         self.of_01, self.of, self.EthAddr = of_01, of, EthAddr
         self._sessions, self._reading = {}, None
         nexus = self.core.openflow
+        # the harness's own nexus-level recorders, by event kind; `mute` (a case parameter) takes some of them away for a case: with
+        # NO listener of a kind on the nexus raiseEvent answers None and the handlers go straight to the connection
+        self._nexus_eids, self._muted = {}, set()
         for name in STATS_EVENTS:
-            nexus.addListenerByName(name, self._on_nexus)
+            self._nexus_eids[name] = nexus.addListenerByName(name, self._on_nexus)
+        for name in MISC_EVENTS:
+            self._nexus_eids[name] = nexus.addListenerByName(name, self._on_nexus_misc)
+        import pox.lib.revent as revent
+        self.revent = revent
         self._entry_cache = {}
         self._dflt = of.ofp_phy_port()                     # canonical [0, 0, 0, 0]
+
+    @staticmethod
+    def mute_of(case):
+        """event kinds for which the nexus has no listener at all during the case ("stats" = the six aggregated events).  Default:
+        a case without listeners of its own runs with the nexus as the earlier rounds had it (recorders of the aggregated events only)."""
+        m = case.get("mute")
+        if m is None: m = [] if case.get("beh") else list(MISC_EVENTS)
+        return set(k for t in m for k in (STATS_EVENTS if t == "stats" else [t]))
+
+    def _set_muted(self, names):
+        nexus = self.core.openflow
+        for name in sorted(self._muted - names):
+            self._nexus_eids[name] = nexus.addListenerByName(name, self._on_nexus if name in STATS_EVENTS else self._on_nexus_misc)
+        for name in sorted(names - self._muted):
+            nexus.removeListener(self._nexus_eids[name])
+        self._muted = set(names)
 
     def _on_nexus(self, ev):
         s = self._sessions.get(id(ev.connection))
         if s is not None and s.con is ev.connection:
+            s.bump("nexus", type(ev).__name__)
             s.nexus.append((s.midx(), self._canon_event(ev, s.con)))
+
+    def _on_nexus_misc(self, ev):
+        s = self._sessions.get(id(getattr(ev, "connection", None)))
+        if s is not None and s.con is ev.connection: s.on_nexus(ev)
 
     # ------------------------------------------------------------------ building bytes
     def _port(self, p):
@@ -399,6 +446,8 @@ class C17(Check):
         # --- HARDENING 7: listeners that raise do not disturb the assembly or the view
         cases.append({"features": feat, "early": [{"t": "status", "reason": 1, "port": feat[1]}], "q": q, "hostile": True,
                       "msgs": [a1, {"t": "status", "reason": 2, "port": ren, "snap": True}, b1, a2, b1]})
+        # --- HARDENING 16: what the listeners of the events answer (round 7)
+        cases += self._listener_cases(E)
         # --- every partition of a body of n <= 5 entries into 1..6 non-empty parts, 4 types; plus empty parts and empty bodies
         for t in MULTIPART:
             for n in range(0, 6):
@@ -416,6 +465,58 @@ class C17(Check):
                 for i in range(5):
                     msgs.append(next(bi) if i in pos else next(ai))
                 cases.append({"features": feat, "early": [], "msgs": msgs, "q": q})
+        return cases
+
+    def _listener_cases(self, E):
+        """Listener outcomes as a case parameter.  One history — a 3-part reply A interleaved with a 2-part reply B of another type,
+        port statuses and a second features reply in between, then request A's (xid, type) used AGAIN for a 2-part reply (a part lost
+        or left behind by the first round would show there), two statuses received during the handshake — run with a listener of
+        RawStatsReply / the aggregated events / PortStatus + FeaturesReceived (+ ConnectionUp) on the nexus or on the connection that
+        answers with EVERY spelling revent accepts (halt, unsubscribe, raise, return), always / at the first / a middle / the final part."""
+        feat = [pd(1, "a", HWS[0]), pd(2, "b", HWS[1])]
+        q = {"nos": [1, 2, 3], "names": ["a", "b", "c"], "hws": HWS + ["0000000000a9"]}
+        ren = pd(1, "c", "0000000000a9")
+        A = self.reply(7, 1, E[1][:5], [2, 1, 2]); B = self.reply(8, 4, E[4][:3], [2, 1]); A2 = self.reply(7, 1, E[1][5:8], [1, 2])
+        st1 = {"t": "status", "reason": 2, "port": ren, "snap": True}
+        st2 = {"t": "status", "reason": 1, "port": feat[1], "snap": True}
+        f2 = {"t": "features", "ports": [feat[1], pd(3, "a", HWS[0])], "snap": True}
+        msgs = [A[0], B[0], st1, A[1], B[1], A[2], f2, st2] + A2            # stats at 0 1 3 4 5 8 9; A: 0 3 5; again 8 9
+        early = [{"t": "status", "reason": 1, "port": feat[1]}, {"t": "status", "reason": 0, "port": pd(3, "c", HWS[1])}]
+        def mk(beh, **kw):
+            return dict({"features": feat, "early": early, "q": q, "msgs": msgs, "beh": beh}, **kw)
+        agg = ["FlowStatsReceived", "PortStatsReceived"]
+        prt = ["PortStatus", "FeaturesReceived"]
+        groups = [(["RawStatsReply"], None), (["RawStatsReply"], [3]), (["RawStatsReply"], [5]), (agg, None), (prt, None),
+                  (list(BEH_EVENTS), None)]
+        cases = []
+        for sp in sorted(BEH):
+            for lv in ("nexus", "con"):
+                for evs, at in groups:
+                    cases.append(mk([{"lv": lv, "ev": e, "sp": sp, "at": at} for e in evs]))
+        # two listeners of one kind (the first one's halt hides the event from the second), both levels at once, the first part / the
+        # handshake only, several messages per read, a second connection with the same request ids whose listeners answer differently
+        both = [[{"lv": "nexus", "ev": "RawStatsReply", "sp": a, "at": at}, {"lv": "con", "ev": "RawStatsReply", "sp": b, "at": at2}]
+                for a, b, at, at2 in (("halt", "halt", [0, 5], [3]), ("raise", "haltremove", None, [3, 9]), ("once_halt", "true", None, [5, 8]),
+                                      ("true", "raise_base", [3, 5], None), ("haltremove", "halt", [0], [0]), ("sethalt", "empty", [9], [8]))]
+        both += [[{"lv": "nexus", "ev": "RawStatsReply", "sp": "halt", "at": [3]}, {"lv": "nexus", "ev": "RawStatsReply", "sp": "raise", "at": None}],
+                 [{"lv": "con", "ev": "RawStatsReply", "sp": "tuple_halt", "at": [0, 3, 5, 8, 9]}, {"lv": "con", "ev": "FlowStatsReceived", "sp": "halt", "at": None}],
+                 [{"lv": lv, "ev": e, "sp": "halt", "at": [-1]} for lv in ("nexus", "con") for e in HS_EVENTS],
+                 [{"lv": "nexus", "ev": e, "sp": "haltremove", "at": [-1]} for e in HS_EVENTS],
+                 [{"lv": "nexus", "ev": "PortStatus", "sp": "halt", "at": [-1, 2]}, {"lv": "con", "ev": "PortStatus", "sp": "raise", "at": None}],
+                 [{"lv": "nexus", "ev": "FeaturesReceived", "sp": "true", "at": [6]}, {"lv": "nexus", "ev": "PortStatus", "sp": "empty", "at": [7]}]]
+        for beh in both:
+            cases.append(mk(beh))
+            cases.append(mk(beh, groups=[3, 3, 4]))
+        # kinds with NO listener on the nexus (the raise there answers None), with and without listeners on the connection
+        for mute in (["stats"], ["RawStatsReply"], ["stats", "RawStatsReply"], ["PortStatus", "FeaturesReceived"], ["stats"] + list(MISC_EVENTS)):
+            cases.append(mk([], mute=mute))
+            for sp in ("halt", "true", "haltremove", "raise", "remove"):
+                cases.append(mk([{"lv": "con", "ev": e, "sp": sp, "at": None} for e in BEH_EVENTS], mute=mute))
+                cases.append(mk([{"lv": "nexus", "ev": e, "sp": sp, "at": [3, 5, 6, 7]} for e in BEH_EVENTS], mute=mute))
+        peer_msgs = [dict(A[0], body=E[1][8:9]), dict(B[0], body=E[4][3:4]), dict(A[2], body=E[1][9:10]), dict(B[1], body=E[4][4:5])]
+        for beh, pbeh in ((both[0], []), ([], both[0]), (both[2], both[3]), ([{"lv": "nexus", "ev": e, "sp": "halt", "at": None} for e in BEH_EVENTS], [])):
+            c = mk(beh); c["peer"] = {"features": feat, "early": early[:1], "q": q, "msgs": peer_msgs, "beh": pbeh}
+            cases.append(c)
         return cases
 
     def _small_scope(self, L):
@@ -522,6 +623,19 @@ class C17(Check):
         if mode == "hostile":
             c = self._case(rng, kind); c["hostile"] = True
             return c
+        if mode == "beh":                                   # 1..3 listeners of the case's own: level, event kind, spelling, when
+            c = self._case(rng, kind, rng.choice([None, None, "groups", "peer"]))
+            for cc in [c] + ([c["peer"]] if c.get("peer") and rng.random() < 0.5 else []):
+                n = len(cc["msgs"])
+                sidx = [i for i, m in enumerate(cc["msgs"]) if m["t"] == "stats"]
+                beh = []
+                for _ in range(rng.choice([1, 1, 2, 3])):
+                    ev = rng.choice(["RawStatsReply"] * 4 + list(BEH_EVENTS)) if sidx else rng.choice(list(HS_EVENTS) + ["PortStatus"])
+                    pool = sidx if (sidx and ev not in HS_EVENTS) else list(range(-1, n))
+                    at = rng.choice([None, rng.sample(pool, rng.randint(1, min(3, len(pool))))])
+                    beh.append({"lv": rng.choice(["nexus", "nexus", "con"]), "ev": ev, "sp": rng.choice(sorted(BEH)), "at": at if at is None else sorted(at)})
+                cc["beh"] = beh
+            return c
         feat = self._rand_features(rng)
         early = [dict(self._rand_status(rng), snap=False) for _ in range(rng.choice([0, 0, 0, 1, 2]))]
         pre = [dict(self._rand_status(rng), snap=False) for _ in range(rng.choice([0, 0, 0, 0, 1, 2]))]
@@ -550,8 +664,12 @@ class C17(Check):
     def generate(self, rng, tier):
         n = 900 if tier == "quick" else 7000
         for i in range(n):
-            mode = [None, None, "rare", "groups", "peer", None, "rare", "groups", "peer", "hostile"][(i // 2) % 10]
-            yield self._case(rng, "ports" if i % 2 == 0 else ("stats" if i % 10 != 9 else "weird"), mode)
+            mode = [None, "beh", "rare", "groups", "peer", "beh", "rare", "groups", "peer", "hostile"][(i // 2) % 10]
+            c = self._case(rng, "ports" if i % 2 == 0 else ("stats" if i % 10 != 9 else "weird"), mode)
+            # which event kinds have NO listener on the nexus (raiseEvent answers None there): none of them, or some
+            if not c.get("beh") and rng.random() < 0.25: c["mute"] = list(MISC_EVENTS) + ["stats"]
+            elif c.get("beh") and rng.random() < 0.3: c["mute"] = sorted(rng.sample(["stats"] + list(MISC_EVENTS), rng.randint(1, 3)))
+            yield c
         if tier == "thorough":
             for c in self._small_scope(3): yield c
             for c in self._small_scope(4): yield c
@@ -567,8 +685,9 @@ class C17(Check):
 
     def search_cases(self, rng, tier):
         for c in self.corpus()[:40]: yield c
+        for c in self._listener_cases(self._fixed_entries()): yield c
         while True:
-            yield self._case(rng, rng.choice(["ports", "stats"]), rng.choice([None, "rare", "groups", "peer"]))
+            yield self._case(rng, rng.choice(["ports", "stats"]), rng.choice([None, "rare", "groups", "peer", "beh", "beh"]))
 
     # ------------------------------------------------------------------ implementation
     def _canon_port(self, p):
@@ -667,6 +786,12 @@ class C17(Check):
             self.events, self.raws, self.excs, self.nexus, self.at_event, self.live = [], [], [], [], [], []
             self.hs = {"up": [], "fr": [], "replay": []}
             self.escaped = None
+            # the same events as the FIRST listener on the nexus sees them (a nexus-level listener may halt an event: the handler
+            # then does not raise it on the connection, by design), the listeners' own log of what they answered, and how many
+            # events of each kind each level's recorder has seen (the ordinal a listener's answer refers to)
+            self.nraws, self.nat_event, self.hs_n, self.behlog, self.cnt = [], [], {"up": [], "fr": [], "replay": []}, [], {}
+            self.beh = [b for b in (case.get("beh") or [])]
+            self._beh_eids = []
             def wrap(u):
                 if u is None: return None
                 def w(raw, offset=0):
@@ -675,13 +800,24 @@ class C17(Check):
             con.unpackers = [wrap(u) for u in con.unpackers]
             for name in STATS_EVENTS:
                 con.addListenerByName(name, self._on_stats)
-            con.addListenerByName("RawStatsReply", lambda ev: self.raws.append((self.midx(),
-                [ev.ofp.xid, ev.ofp.type, not ev.ofp.is_last_reply] + ([] if ev.dpid == con.dpid and ev.connection is con else ["dpid"]))))
-            has_early = bool(case.get("early"))
+            def on_raw(ev):
+                self.bump("con", "RawStatsReply"); self.raws.append((self.midx(), self._canon_raw(ev)))
+            con.addListenerByName("RawStatsReply", on_raw)
+            self.has_early = has_early = bool(case.get("early"))
             q = case["q"]
-            con.addListenerByName("ConnectionUp", lambda ev: self.hs["up"].append(chk._snap(con, q)))
-            con.addListenerByName("FeaturesReceived", lambda ev: None if self.base is not None else self.hs["fr"].append(chk._snap(con, q) if has_early else None))
+            def on_up(ev):
+                self.bump("con", "ConnectionUp"); self.hs["up"].append(chk._snap(con, q))
+            def on_fr(ev):
+                self.bump("con", "FeaturesReceived")
+                if self.base is None: self.hs["fr"].append(chk._snap(con, q) if has_early else None)
+                else: self.at_event.append((self.midx(), self._view_at(ev)))
+            con.addListenerByName("ConnectionUp", on_up)
+            con.addListenerByName("FeaturesReceived", on_fr)
             con.addListenerByName("PortStatus", self._on_port_status)
+            for spec in self.beh:                                    # the case's listeners: after the recorders on their level
+                if spec["lv"] == "nexus" and spec["ev"] in chk._muted: continue       # muted = NO listener of that kind on the nexus
+                src = chk.core.openflow if spec["lv"] == "nexus" else con
+                self._beh_eids.append((src, src.addListenerByName(spec["ev"], self._beh_listener(spec), priority=-10, once=spec["sp"] in BEH_ONCE)))
             if case.get("hostile"):                                  # listeners that raise: registered after the recorders
                 def boom(ev): raise RuntimeError("listener failure")
                 for name in list(STATS_EVENTS) + ["PortStatus", "RawStatsReply"]:
@@ -689,18 +825,69 @@ class C17(Check):
 
         def midx(self): return -1 if self.base is None else self.seq - self.base - 1
 
+        def bump(self, lv, name): self.cnt[(lv, name)] = self.cnt.get((lv, name), 0) + 1
+
+        def _canon_raw(self, ev):
+            con = self.con
+            return [ev.ofp.xid, ev.ofp.type, not ev.ofp.is_last_reply] + ([] if ev.dpid == con.dpid and ev.connection is con else ["dpid"])
+
+        def _view_at(self, ev):
+            """what a handler of a PortStatus / FeaturesReceived event raised in the connected phase sees"""
+            chk, con = self.chk, self.con
+            if type(ev).__name__ == "FeaturesReceived":
+                return {"keys": sorted(con.ports.keys()), "okeys": sorted(con.original_ports.keys()), "fr": True}
+            return {"keys": sorted(con.ports.keys()), "no": ev.ofp.desc.port_no, "look": chk._look(con.ports, ev.ofp.desc.port_no), "reason": ev.ofp.reason}
+
+        def on_nexus(self, ev):
+            chk, name, q = self.chk, type(ev).__name__, self.case["q"]
+            self.bump("nexus", name)
+            if name == "RawStatsReply": self.nraws.append((self.midx(), self._canon_raw(ev)))
+            elif name == "ConnectionUp": self.hs_n["up"].append(chk._snap(self.con, q) if self.beh else None)
+            elif self.base is not None: self.nat_event.append((self.midx(), self._view_at(ev)))
+            elif name == "FeaturesReceived": self.hs_n["fr"].append(chk._snap(self.con, q) if self.beh and self.has_early else None)
+            else: self.hs_n["replay"].append(chk._snap(self.con, q) if self.beh else None)
+
+        def _beh_listener(self, spec):
+            """a listener of one event kind on one level that answers with the spelling spec["sp"] while the connection handles one
+            of the messages spec["at"] (-1 = the handshake; None = always) and plainly returns otherwise"""
+            sess, revent = self, self.chk.revent
+            lv, name, sp, at = spec["lv"], spec["ev"], spec["sp"], spec.get("at")
+            def h(ev):
+                if getattr(ev, "connection", None) is not sess.con: return None
+                i = sess.midx()
+                if at is not None and i not in at: return None
+                sess.behlog.append((i, [lv, name, BEH[sp], sess.cnt.get((lv, name), 0) - 1]))
+                if sp == "continue": return revent.EventContinue
+                if sp == "one": return 1
+                if sp == "raise": raise RuntimeError("listener of %s fails" % name)
+                if sp == "raise_base": raise ListenerQuit()
+                if sp == "raise_revent": raise revent.ReventError("listener of %s fails" % name)
+                if sp in ("halt", "once_halt"): return revent.EventHalt
+                if sp == "true": return True
+                if sp == "sethalt": ev.halt = True; return None
+                if sp == "empty": return ()
+                if sp == "tuple_halt": return (True,)
+                if sp == "haltremove": return revent.EventHaltAndRemove
+                if sp == "tuple_haltremove": return (1, True)
+                if sp == "remove": return revent.EventRemove
+                if sp == "tuple_remove": return (False, True)
+                if sp == "false": return False
+                return None                                              # "none", "once"
+            return h
+
         def _on_stats(self, ev):
+            self.bump("con", type(ev).__name__)
             c = self.chk._canon_event(ev, self.con)
             self.events.append((self.midx(), c))
             self.live.append((ev, dict(c)))
 
         def _on_port_status(self, ev):
             chk, con = self.chk, self.con
+            self.bump("con", "PortStatus")
             if self.base is None:
                 self.hs["replay"].append(chk._snap(con, self.case["q"]))
             else:                                                    # what a PortStatus handler sees: the view with this notification applied
-                self.at_event.append((self.midx(), {"keys": sorted(con.ports.keys()), "no": ev.ofp.desc.port_no,
-                                                    "look": chk._look(con.ports, ev.ofp.desc.port_no), "reason": ev.ofp.reason}))
+                self.at_event.append((self.midx(), self._view_at(ev)))
 
         def feed(self, data):
             chk = self.chk
@@ -766,16 +953,30 @@ class C17(Check):
                 o = {"events": [e for j, e in self.events if j == i], "raw": [r for j, r in self.raws if j == i]}
                 ex = [x for j, x in self.excs if j == i]
                 if ex: o["exc"] = ex
-                nx = [e for j, e in self.nexus if j == i]
+                mu = self.chk._muted
+                nx = [e for j, e in self.nexus if j == i] + [e for e in o["events"] if e["cls"] in mu]
                 if nx != o["events"]: o["nexus"] = nx
                 ae = [a for j, a in self.at_event if j == i]
                 if ae: o["at_event"] = ae
+                nr = o["raw"] if "RawStatsReply" in mu else [r for j, r in self.nraws if j == i]
+                if nr != o["raw"]: o["nraw"] = nr
+                na = [a for j, a in self.nat_event if j == i] + [a for a in ae if ("FeaturesReceived" if a.get("fr") else "PortStatus") in mu]
+                if na != ae: o["nat_event"] = na
+                bl = [b for j, b in self.behlog if j == i]
+                if bl: o["beh"] = bl
                 outs.append(o)
             if not self.alive and outs: outs[-1]["closed"] = self.escaped or True
-            stray = [e for j, e in self.events if not (0 <= j <= last)] + [r for j, r in self.raws if not (0 <= j <= last)]
+            stray = [e for j, e in self.events + self.nexus if not (0 <= j <= last)] + [r for j, r in self.raws + self.nraws if not (0 <= j <= last)]
             res = {"handshake": "up", "snaps": self.snaps, "outs": outs, "buf": len(self.con.buf),
                    "up_snaps": self.hs["up"], "fr_snaps": self.hs["fr"], "replay_snaps": self.hs["replay"]}
             if stray: res["stray"] = stray[:3]
+            mu = self.chk._muted
+            hsn = {k: (self.hs[k] if name in mu else self.hs_n[k]) for k, name in (("up", "ConnectionUp"), ("fr", "FeaturesReceived"), ("replay", "PortStatus"))}
+            if self.beh:
+                res.update({"n_up_snaps": hsn["up"], "n_fr_snaps": hsn["fr"], "n_replay_snaps": hsn["replay"],
+                            "hs_beh": [b for j, b in self.behlog if j == -1]})
+            elif [len(hsn[k]) for k in ("up", "fr", "replay")] != [len(self.hs[k]) for k in ("up", "fr", "replay")]:
+                res["hs_nexus_counts"] = [len(hsn[k]) for k in ("up", "fr", "replay")]
             # events handed to listeners must not change afterwards (a list reused for the next event, say)
             for ev, c in self.live:
                 now = self.chk._canon_event(ev, self.con)
@@ -783,6 +984,10 @@ class C17(Check):
             return res
 
         def close(self):
+            for src, eid in self._beh_eids:
+                try: src.removeListener(eid)
+                except Exception: pass
+            self._beh_eids = []
             self.chk._sessions.pop(id(self.con), None)
             try: self.con.ofnexus._disconnect(self.con.dpid)
             except Exception: pass
@@ -796,6 +1001,7 @@ class C17(Check):
         of_01.log.exception = on_exc
         sess = []
         try:
+            self._set_muted(self.mute_of(case))
             a = self._Session(self, case, 0x17); sess.append(a)
             h = a.handshake()
             if h: return {"handshake": h}
@@ -848,7 +1054,9 @@ class C17(Check):
         for m in case.get("early", []):
             hs.append({"t": "status", "reason": m["reason"], "port": pd_canon(m["port"])})
         seen0 = seen(next(snaps))
-        up = obs["up_snaps"][0] if len(obs["up_snaps"]) == 1 else None
+        ups, _frs, reps = self._hs_primary(case, obs)
+        up = ups[0] if len(ups) == 1 else None
+        levels = bool(case.get("beh"))
         msgs = []
         flags = self._snap_flags(case)
         for k, m in enumerate(case["msgs"]):
@@ -857,10 +1065,15 @@ class C17(Check):
             elif m["t"] == "stats": mm = {"t": "stats", "xid": m["xid"], "type": m["type"], "more": m["more"], "body": [ids[h] for h in m["body"]]}
             else: mm = {"t": "other"}
             if flags[k]: mm["seen"] = seen(next(snaps))
+            if levels and k < len(obs["outs"]):
+                # what the nexus-level listeners answered while this message was handled (their own log): an input of the handlers
+                hl = set(b[1] for b in obs["outs"][k].get("beh", []) if b[0] == "nexus" and b[2] in HALTING)
+                mm["halt"] = ["RawStatsReply" in hl, bool(hl & set(STATS_EVENTS)), ("PortStatus" if m["t"] == "status" else "FeaturesReceived") in hl]
             msgs.append(mm)
         # copy() is compared when the implementation returns a collection (the unrepaired method returns None: candidate C17-1)
         req = {"q": mq, "hs": hs, "seen0": seen0, "msgs": msgs, "copy": all(sn.get("copy") is not None for sn in obs["snaps"]),
-               "seen_replay": [seen(sn) for sn in obs["replay_snaps"]]}
+               "seen_replay": [seen(sn) for sn in reps]}
+        if levels: req["levels"] = True
         if up is not None: req["seen_up"] = seen(up)
         return req
 
@@ -869,13 +1082,20 @@ class C17(Check):
     def impl_view(self, case, obs):
         if obs.get("handshake") != "up": return obs
         ids = self._ids(case)
-        outs = []
-        for o in obs["outs"]:
-            if o.get("exc"): outs.append({"raised": o["exc"][0]}); continue
-            if len(o["events"]) == 0: outs.append(None); continue
-            if len(o["events"]) > 1: outs.append({"many": len(o["events"])}); continue
-            e = o["events"][0]
-            outs.append({"type": STATS_EVENTS[e["cls"]], "stats": [ids.get(h, -1) for h in e["stats"]], "xids": e["xids"]})
+        levels = bool(case.get("beh"))
+        def outs_of(pick):
+            outs = []
+            for o in obs["outs"]:
+                evs = pick(o)
+                if o.get("exc"): outs.append({"raised": o["exc"][0]}); continue
+                if len(evs) == 0: outs.append(None); continue
+                if len(evs) > 1: outs.append({"many": len(evs)}); continue
+                e = evs[0]
+                outs.append({"type": STATS_EVENTS[e["cls"]], "stats": [ids.get(h, -1) for h in e["stats"]], "xids": e["xids"]})
+            return outs
+        def raws_of(pick):
+            return [(pick(o)[0] if len(pick(o)) == 1 else (None if not pick(o) else {"many": pick(o)})) for o in obs["outs"]]
+        outs = outs_of((lambda o: o.get("nexus", o["events"])) if levels else (lambda o: o["events"]))
         with_copy = all(sn.get("copy") is not None for sn in obs["snaps"])
         def proj(sn):
             d = {p + k: sn[p + k] for p in ("", "o") for k in self.SNAP_KEYS}
@@ -883,15 +1103,41 @@ class C17(Check):
             if with_copy: d["copy"] = sn["copy"]
             return d
         snaps = [proj(sn) for sn in obs["snaps"]]
-        raws = [(o["raw"][0] if len(o["raw"]) == 1 else (None if not o["raw"] else {"many": o["raw"]})) for o in obs["outs"]]
-        return {"outs": outs, "raws": raws, "snaps": snaps,
-                "up_snap": proj(obs["up_snaps"][0]) if len(obs["up_snaps"]) == 1 else {"ConnectionUp raised": len(obs["up_snaps"])},
-                "replay_snaps": [proj(sn) for sn in obs["replay_snaps"]]}
+        raws = raws_of((lambda o: o.get("nraw", o["raw"])) if levels else (lambda o: o["raw"]))
+        ups, _frs, reps = self._hs_primary(case, obs)
+        v = {"outs": outs, "raws": raws, "snaps": snaps,
+             "up_snap": proj(ups[0]) if len(ups) == 1 else {"ConnectionUp raised": len(ups)},
+             "replay_snaps": [proj(sn) for sn in reps]}
+        if levels:                                   # per level: the connection-level events are the nexus-level ones minus those halted there
+            v["outs_con"] = outs_of(lambda o: o["events"]); v["raws_con"] = raws_of(lambda o: o["raw"])
+            v["pev"] = [[len(o.get("nat_event", o.get("at_event", []))), len(o.get("at_event", []))] for o in obs["outs"]]
+        return v
 
     def model_obs(self, case, resp):
         if "error" in resp: return resp
-        return {"outs": resp["outs"], "raws": resp["raws"], "snaps": resp["snaps"], "up_snap": resp.get("up_snap"),
-                "replay_snaps": resp.get("replay_snaps")}
+        v = {"outs": resp["outs"], "raws": resp["raws"], "snaps": resp["snaps"], "up_snap": resp.get("up_snap"),
+             "replay_snaps": resp.get("replay_snaps")}
+        if case.get("beh"):
+            for k in ("outs_con", "raws_con", "pev"): v[k] = resp.get(k)
+        return v
+
+    @staticmethod
+    def _hs_primary(case, obs):
+        """the handshake's events as the FIRST listener sees them: on the nexus when the case has listeners of its own (recorded with
+        snapshots then), else on the connection (the two are required to agree)"""
+        if case.get("beh") and "n_up_snaps" in obs: return obs["n_up_snaps"], obs["n_fr_snaps"], obs["n_replay_snaps"]
+        return obs["up_snaps"], obs["fr_snaps"], obs["replay_snaps"]
+
+    @staticmethod
+    def _con_level_ok(nexus_items, con_items, halted):
+        """the connection-level events are the nexus-level ones, in order, except that one a nexus-level listener halted (ordinals
+        `halted`) may be missing (it is, by design: the handlers skip the second raise)"""
+        N, C, H = nexus_items, con_items, set(halted)
+        def sub(i, j):
+            if i == len(N): return j == len(C)
+            if j < len(C) and N[i] == C[j] and sub(i + 1, j + 1): return True
+            return i in H and sub(i + 1, j)
+        return sub(0, 0)
 
     # ------------------------------------------------------------------ the property, on the implementation's observables
     def _check_coll(self, s, pre, cur, q, who):
@@ -958,29 +1204,44 @@ class C17(Check):
         # ---- at ConnectionUp / FeaturesReceived nothing has been dispatched yet: the view is the features reply; the statuses
         #      received during the handshake are dispatched afterwards, one PortStatus event each (C17 reads "notifications applied
         #      in order" relative to dispatch: at every event the view holds exactly the notifications dispatched so far)
-        if len(obs["up_snaps"]) != 1 or len(obs["fr_snaps"]) != 1:
-            return "handshake:events:count: ConnectionUp raised %d times, FeaturesReceived %d times on the connection" % (len(obs["up_snaps"]), len(obs["fr_snaps"]))
-        for tag, sn in (("ConnectionUp", obs["up_snaps"][0]), ("FeaturesReceived", obs["fr_snaps"][0])):
+        ups, frs, reps = self._hs_primary(case, obs)
+        if len(ups) != 1 or len(frs) != 1:
+            return "handshake:events:count: ConnectionUp raised %d times, FeaturesReceived %d times" % (len(ups), len(frs))
+        if "hs_nexus_counts" in obs:
+            return "handshake:nexus-differs: ConnectionUp / FeaturesReceived / replayed PortStatus raised %s times on the nexus" % (obs["hs_nexus_counts"],)
+        if case.get("beh") and "n_up_snaps" in obs:                 # the connection level: the same, minus what a nexus-level listener halted
+            hb = obs.get("hs_beh", [])
+            for name, N, C in (("ConnectionUp", ups, obs["up_snaps"]), ("FeaturesReceived", frs, obs["fr_snaps"]), ("PortStatus", reps, obs["replay_snaps"])):
+                if not self._con_level_ok(N, C, [b[3] for b in hb if b[0] == "nexus" and b[1] == name and b[2] in HALTING]):
+                    return "handshake:con-level:differs: %s raised %d times on the nexus and %d times on the connection, not explained by halting listeners" % (name, len(N), len(C))
+        for tag, sn in (("ConnectionUp", ups[0]), ("FeaturesReceived", frs[0])):
             if sn is None: continue                       # not recorded (no status was received during this handshake)
             f = check(sn)
             if f: return f.replace("ports:", "ports-at-up:", 1) + " (at %s)" % tag
         early = case.get("early", [])
-        if len(obs["replay_snaps"]) != len(early):
-            return "handshake:replay:count: %d port statuses received during the handshake, %d PortStatus events when the connection came up" % (len(early), len(obs["replay_snaps"]))
+        if len(reps) != len(early):
+            return "handshake:replay:count: %d port statuses received during the handshake, %d PortStatus events when the connection came up" % (len(early), len(reps))
         for k, m in enumerate(early):
             defined = apply(m) and defined
-            f = check(obs["replay_snaps"][k])
+            f = check(reps[k])
             if f: return f.replace("ports:", "ports-at-replay:", 1) + " (at replayed PortStatus %d)" % k
         f = check(next(snaps))
         if f: return f + " (after handshake)"
         # ---- statistics: per request, the open parts; the event due at each message
         open_parts, tainted, crossed = {}, set(), set()
         for i, (m, o) in enumerate(zip(case["msgs"], obs["outs"])):
-            evs = o["events"]
+            # the events as the first listener on the nexus sees them (what "fires" means whatever other listeners do); on the
+            # connection: the same, except that an event a nexus-level listener halted may be missing there
+            halted = set(b[1] for b in o.get("beh", []) if b[0] == "nexus" and b[2] in HALTING)
+            evs = o.get("nexus", o["events"])
             want_raw = [[m["xid"], m["type"], m["more"]]] if m["t"] == "stats" else []
-            if o["raw"] != want_raw: return "stats:raw:wrong: message %d (%s) raised RawStatsReply %s, expected %s" % (i, m["t"], o["raw"], want_raw)
-            if any("dpid" in e for e in evs): return "stats:event:wrong-dpid: message %d" % i
-            if "nexus" in o: return "stats:nexus-differs: message %d: nexus saw %d events, connection %d" % (i, len(o["nexus"]), len(evs))
+            nraw = o.get("nraw", o["raw"])
+            if nraw != want_raw: return "stats:raw:wrong: message %d (%s) raised RawStatsReply %s, expected %s" % (i, m["t"], nraw, want_raw)
+            if o["raw"] != nraw and not (o["raw"] == [] and "RawStatsReply" in halted):
+                return "stats:raw:con-differs: message %d raised RawStatsReply %s on the connection, %s on the nexus" % (i, o["raw"], nraw)
+            if any("dpid" in e for e in evs + o["events"]): return "stats:event:wrong-dpid: message %d" % i
+            if "nexus" in o and not (o["events"] == [] and len(evs) == 1 and evs[0]["cls"] in halted):
+                return "stats:nexus-differs: message %d: nexus saw %d events, connection %d" % (i, len(o["nexus"]), len(o["events"]))
             if o.get("closed"): return "conn:closed: message %d closed the connection" % i
             if m["t"] == "stats":
                 key = (m["xid"], m["type"])
@@ -1013,14 +1274,23 @@ class C17(Check):
             else:
                 if evs: return "stats:spurious: a %s message raised %s" % (m["t"], evs[0]["cls"])
                 defined = apply(m) and defined
-                if m["t"] == "status":                                 # the PortStatus handlers see the view with this notification applied
-                    ae = o.get("at_event", [])
-                    if len(ae) != 1: return "ports:event:count: port status message %d raised %d PortStatus events on the connection" % (i, len(ae))
-                    if defined and ok_feat:
+                ae_con = o.get("at_event", [])
+                ae = o.get("nat_event", ae_con)
+                if m["t"] in ("status", "features"):                   # the PortStatus / FeaturesReceived handlers see the view with this message applied
+                    ename = "PortStatus" if m["t"] == "status" else "FeaturesReceived"
+                    if len(ae) != 1: return "ports:event:count: %s message %d raised %d %s events" % (m["t"], i, len(ae), ename)
+                    if ae_con != ae and not (ae_con == [] and ename in halted):
+                        return "ports:event:con-differs: message %d: %s raised %d times on the connection, %d on the nexus (or with another view)" % (i, ename, len(ae_con), len(ae))
+                    if defined and ok_feat and m["t"] == "status":
                         want = cur.get(m["port"]["no"], "IndexError")
-                        if ae[0]["keys"] != sorted(cur) or ae[0]["look"] != want:
+                        if ae[0].get("keys") != sorted(cur) or ae[0].get("look") != want:
                             return "ports:at-event:wrong: inside the PortStatus handler of message %d ports[%d] = %s keys %s, expected %s keys %s" % (
-                                i, m["port"]["no"], ae[0]["look"], ae[0]["keys"], want, sorted(cur))
+                                i, m["port"]["no"], ae[0].get("look"), ae[0].get("keys"), want, sorted(cur))
+                    if defined and ok_feat and m["t"] == "features":
+                        if ae[0].get("keys") != sorted(cur) or ae[0].get("okeys") != sorted(orig):
+                            return "ports:at-event:wrong: inside the FeaturesReceived handler of message %d ports has keys %s, original_ports %s, expected %s" % (
+                                i, ae[0].get("keys"), ae[0].get("okeys"), sorted(cur))
+                elif ae or ae_con: return "ports:event:spurious: a %s message raised a port event" % m["t"]
             if snap_flags[i]:
                 f = check(next(snaps))
                 if f: return f + " (after message %d)" % i
@@ -1046,14 +1316,25 @@ class C17(Check):
         return changed or multi or overlap
 
     def shrink_candidates(self, case):
-        for k in ("peer", "groups", "hostile"):
+        for k in ("peer", "groups", "hostile", "beh", "mute"):
             if case.get(k):
                 c = dict(case); c.pop(k); yield c
+        beh = case.get("beh") or []
+        if len(beh) > 1:
+            for i in range(len(beh)):
+                c = dict(case); c["beh"] = beh[:i] + beh[i + 1:]; yield c
+        for i, b in enumerate(beh):                      # one listener: one message at a time
+            if b.get("at") is None or len(b["at"]) > 1:
+                for a in (b["at"] if b.get("at") is not None else range(-1, len(case["msgs"]))):
+                    c = dict(case); c["beh"] = beh[:i] + [dict(b, at=[a])] + beh[i + 1:]; yield c
         if case.get("peer"):
             for pc in self.shrink_candidates(case["peer"]):
                 c = dict(case); c["peer"] = pc; yield c
         for i in range(len(case["msgs"])):
-            c = dict(case); c["msgs"] = case["msgs"][:i] + case["msgs"][i + 1:]; c.pop("groups", None); yield c
+            c = dict(case); c["msgs"] = case["msgs"][:i] + case["msgs"][i + 1:]; c.pop("groups", None)
+            if beh:                                      # the listeners' "at" refers to message indices
+                c["beh"] = [b if b.get("at") is None else dict(b, at=[a - (a > i) for a in b["at"] if a != i]) for b in beh]
+            yield c
         for i in range(len(case.get("early", []))):
             c = dict(case); c["early"] = case["early"][:i] + case["early"][i + 1:]; yield c
         if case.get("pre"):
